@@ -92,19 +92,25 @@ func drawErrCase(d *caseDrawer, r *rng.R) *PCase {
 	for try := 0; try < 4000; try++ {
 		var g *gram.Grammar
 		origin := ""
-		switch r.Intn(3) {
+		kind := r.Intn(4)
+		switch kind {
 		case 0:
 			o := specgen.DefaultGrammarOpts()
 			o.AllowStarF = false
 			g = specgen.RandomGrammar(r, o)
 			origin = "random"
+		case 1:
+			g = specgen.ErrorContextsGrammar(r)
+			origin = "error-rule-in-several-contexts"
 		default:
 			g = specgen.StructuredGrammar(r)
 			origin = "structured"
 		}
 		stripLists(g)
-		specgen.AddErrors(r, g)
-		origin += "+error"
+		if kind != 1 {
+			specgen.AddErrors(r, g)
+			origin += "+error"
+		}
 		d.mu.Lock()
 		d.drawn++
 		d.mu.Unlock()
